@@ -246,6 +246,9 @@ def main(argv=None):
     jobs_by_id = {j["id"]: j for j in jobs}
 
     def unknowns_of(r):
+        # (a job that ran out of its wall-clock budget is not retried: more solver time does not help a run-away exploration)
+        if any(o["status"] == "unknown" and o.get("clause") == "budget" for o in r["obs"]):
+            return []
         return [o for o in r["obs"] if o["status"] == "unknown"]
 
     def group(o):
